@@ -8,6 +8,7 @@ random.Random.random (patched here, dyadic rationals num/1024 only, so no float 
 import contextlib
 import io
 import json
+import re
 import random as _random
 from collections import Counter
 from datetime import date, datetime, timedelta, timezone
@@ -202,6 +203,133 @@ def body_lines(case):
     raise ValueError(k)
 
 
+# ------------------------------------------------------------------------------------------------
+# weighted-choice blocks rendered many times (rows of a `count`, iterations, children of several parents):
+# every probability is a literal or a formula of a row key, every pick a label or a formula of the key.
+# The row key is whatever the driver expression evaluates to in that row; it is also written to the sibling
+# field `k`, so the weights "as the user wrote them for that row" are looked up by the OBSERVED key.
+def tok(q, style):
+    """text of a weight of q quarters and the type YAML / the formula language gives it: [q, text, ty]"""
+    frac = {0: "", 1: ".25", 2: ".5", 3: ".75"}[abs(q) % 4]
+    val = ("-" if q < 0 else "") + str(abs(q) // 4) + frac
+    if q < 0 and style in ("plus", "zeros"):
+        style = "str"
+    if style == "num":
+        return [q, val, "int" if q % 4 == 0 else "flt"]
+    if style == "flt":
+        return [q, val + ("" if frac else ".0"), "flt"]
+    if style == "pct":
+        return [q, val + "%", "str"]
+    if style == "sp":
+        return [q, " " + val + " ", "str"]
+    if style == "plus":
+        return [q, "+" + val + "%", "str"]
+    if style == "zeros":
+        return [q, "0" + val + ("0" if frac else ".00"), "str"]
+    if style == "pp":
+        return [q, val + "%%", "str"]
+    return [q, val, "str"]
+
+
+def tok_yaml(t):
+    """a literal probability in YAML"""
+    _, text, ty = t
+    if ty != "str":
+        return text
+    return text if re.fullmatch(r"[0-9.]+%", text) else "'" + text + "'"
+
+
+def tok_expr(t):
+    """the same value inside a ${{ }} / << >> expression"""
+    _, text, ty = t
+    return text if ty != "str" else "'" + text + "'"
+
+
+DRIVER_EXPR = {"id": "id", "child_index": "child_index", "field": "k", "this_field": "this.k", "counter": "k",
+               "var": "child_index + base", "parent": "P.n + child_index", "parent_only": "P.n"}
+
+
+def driver_expr(blk):
+    d = blk["driver"]
+    if d == "idmod":
+        return f"id % {blk['mod']}"
+    if d == "cimod":
+        return f"child_index % {blk['mod']}"
+    return DRIVER_EXPR[d]
+
+
+def key_formula(expr, syn, entries, render, block_render):
+    """if-chain over the key values; the last entry is the else branch"""
+    if syn == "block":
+        parts = []
+        for i, (key, t) in enumerate(entries):
+            if i == len(entries) - 1 and i > 0:
+                parts.append("${% else %}")
+            else:
+                parts.append("${% " + ("if" if i == 0 else "elif") + f" {expr} == {key}" + " %}")
+            parts.append(block_render(t))
+        return json.dumps("".join(parts) + "${% endif %}")
+    e = render(entries[-1][1])
+    for key, t in reversed(entries[:-1]):
+        e = f"{render(t)} if {expr} == {key} else ({e})"
+    return json.dumps("${{ " + e + " }}" if syn == "jinja" else "<< " + e + " >>")
+
+
+def block_lines(blk, b):
+    """YAML lines of the random_choice of block b (a dict of form / cols / tab)"""
+    expr = driver_expr(blk)
+    lines = ["random_choice:"]
+    for j, col in enumerate(b["cols"]):
+        if col["lit"]:
+            prob = tok_yaml(b["tab"][0][1][j])
+        else:
+            prob = key_formula(expr, col["syntax"], [(key, row[j]) for key, row in b["tab"]], tok_expr, lambda t: t[1])
+        if b["form"] == "dict":
+            lines.append(f"  L{col['lab']}: {prob}")
+            continue
+        lines += ["  - choice:", f"      probability: {prob}"]
+        if col.get("pickf"):
+            off = col["lab"] * 1000
+            lines.append("      pick: " + json.dumps(
+                "L${{ " + f"{expr} + {off}" + " }}" if col["syntax"] != "legacy" else "L<< " + f"{expr} + {off}" + " >>"))
+        else:
+            lines.append(f"      pick: L{col['lab']}")
+    if b.get("wrap") == "if":
+        lines = ["if:", "  - choice:", '      when: "${{ True }}"', "      pick:"] + ["        " + l for l in lines]
+    return lines
+
+
+def block_recipe(case):
+    blk = case["blk"]
+    head = "" if blk.get("legacy") else "- snowfakery_version: 3\n"
+    if blk["driver"] == "counter":
+        head += "- plugin: snowfakery.standard_plugins.Counters\n"
+    if blk["driver"] == "var":
+        head += f"- var: base\n  value: {blk['base']}\n"
+    expr = driver_expr(blk)
+    if blk["driver"] == "counter":
+        kl = ["k:", "  Counters.NumberCounter:", f"    start: {blk['start']}", f"    step: {blk['step']}"]
+    elif blk["driver"] in ("field", "this_field"):
+        kl = ['k: "${{ id }}"']
+    else:
+        kl = ['k: "${{ ' + expr + ' }}"']
+    fields = list(kl)
+    for name, b in zip("de", blk["blocks"]):
+        fields += [f"{name}:"] + ["  " + l for l in block_lines(blk, b)]
+    if blk["struct"] == "friends":
+        out = (f"- object: P\n  count: {blk['parents']}\n  fields:\n    n: \"${{{{ id * 10 }}}}\"\n  friends:\n"
+               f"    - object: A\n      count: {blk['count']}\n      fields:\n")
+        return head + out + "".join(f"        {l}\n" for l in fields)
+    return head + f"- object: A\n  count: {blk['count']}\n  fields:\n" + "".join(f"    {l}\n" for l in fields)
+
+
+def block_row(b, k):
+    """(labels, weights in quarters) of block b as the user wrote them for the row whose key is k"""
+    row = next((r for key, r in b["tab"] if key == k), b["tab"][-1][1])
+    labs = [c["lab"] * 1000 + k if c.get("pickf") else c["lab"] for c in b["cols"]]
+    return labs, [t[0] for t in row]
+
+
 def inline_expr(case):
     """`${{ ... }}` form for random_number only"""
     args = f"min={case['min']}, max={case['max']}"
@@ -211,6 +339,8 @@ def inline_expr(case):
 
 
 def recipe(case):
+    if "blk" in case:
+        return block_recipe(case)
     rows = case["draws"]["rows"]
     version = "" if case.get("syntax") == "legacy" else "- snowfakery_version: 3\n"   # << >> needs the legacy mode
     head = f"{version}- object: A\n  count: {rows}\n  fields:\n"
@@ -293,6 +423,19 @@ def canon_value(kind, v):
     return ["other", repr(v)[:80]]
 
 
+def canon_key(k):
+    """the row key as written to the sibling field `k` (an int, or digits when formulas give text)"""
+    if isinstance(k, bool):
+        return None
+    if isinstance(k, int):
+        return k
+    if isinstance(k, float) and k == int(k):
+        return int(k)
+    if isinstance(k, str) and re.fullmatch(r"-?[0-9]+", k.strip()):
+        return int(k.strip())
+    return None
+
+
 def _now_us():
     d = datetime.now(timezone.utc) - datetime(1970, 1, 1, tzinfo=timezone.utc)
     return (d.days * 86400 + d.seconds) * US + d.microseconds
@@ -332,6 +475,9 @@ def run_impl(case):
         return raw[i % len(raw)] % DEN
 
     frozen = False
+    kw = {}
+    if "blk" in case and case["blk"]["struct"] == "iter":
+        kw["target_number"] = (case["blk"]["target"], "A")
     try:
       with freezer as frozen:
           if mode == "free":
@@ -341,16 +487,22 @@ def run_impl(case):
                   Faker.seed(dr.get("seed", 0))
               except Exception:
                   pass
-              generate_data(io.StringIO(recipe(case)), output_file=out, output_format="json")
+              generate_data(io.StringIO(recipe(case)), output_file=out, output_format="json", **kw)
               obs["below"], obs["rand"], obs["widths"] = [], [], []
           else:
               with injected_randbelow(chooser=below) as rec, injected_random(rnd, rlog):
                   try:
-                      generate_data(io.StringIO(recipe(case)), output_file=out, output_format="json")
+                      generate_data(io.StringIO(recipe(case)), output_file=out, output_format="json", **kw)
                   finally:
                       obs["below"], obs["widths"], obs["rand"] = list(rec.values), list(rec.widths), list(rlog)
           rows = json.loads(out.getvalue())
-          obs["ok"] = [canon_value(case["kind"], r.get("d")) for r in rows if r.get("_table") == "A"]
+          if "blk" in case:
+              names = "de"[:len(case["blk"]["blocks"])]
+              obs["rows"] = [[canon_key(r.get("k"))] + [canon_value("choice", r.get(f)) for f in names]
+                             for r in rows if r.get("_table") == "A"]
+              obs["ok"] = [v for r in obs["rows"] for v in r[1:]]
+          else:
+              obs["ok"] = [canon_value(case["kind"], r.get("d")) for r in rows if r.get("_table") == "A"]
     except BaseException as e:
         if isinstance(e, (KeyboardInterrupt, SystemExit, C._CaseTimeout)):
             raise
@@ -414,12 +566,40 @@ def _uses_clock(case):
     return case["kind"] in ("date", "datetime") and any(case[b]["t"] in ("now", "today", "rel") for b in ("start", "end"))
 
 
+def block_fn_coq(b, k):
+    labs, ws = block_row(b, k)
+    if b["form"] == "choices":
+        return "(FChoice (RCChoices " + C.clist(C.cpair(C.copt(q, C.cz), C.cz(lab)) for lab, q in zip(labs, ws)) + "))"
+    return "(FChoice (RCDict " + C.clist(C.cpair(C.cz(lab), C.cz(q)) for lab, q in zip(labs, ws)) + "))"
+
+
+def block_coq_case(case, obs):
+    rows = obs.get("rows")
+    if rows is None or not rows or any(r[0] is None for r in rows):
+        return None                      # an error / unreadable keys: the oracle reports what the property says about it
+    blocks = case["blk"]["blocks"]
+    pairs = []                           # (function as rendered for that row, value) in the order the draws are made
+    for r in rows:
+        for b, v in zip(blocks, r[1:]):
+            vc = value_coq(v)
+            if vc is None:
+                return None
+            pairs.append((block_fn_coq(b, r[0]), vc))
+    if case["draws"]["mode"] == "free":
+        return "CPerRowFree " + C.clist(C.cpair(f, v) for f, v in pairs)
+    if len(obs["rand"]) != len(pairs):
+        return f"CPerRow {DEN} [({pairs[0][0]}, (-1), VNull)]"      # unexpected number of draws: disagreement
+    return f"CPerRow {DEN} " + C.clist(f"({f}, {C.cz(d)}, {v})" for (f, v), d in zip(pairs, obs["rand"]))
+
+
 def coq_case(case, obs):
     if _uses_clock(case) and not obs.get("clock_stable", True):
         return None                      # midnight passed during the run
     if case["kind"] == "datetime" and any(case[b]["t"] in ("now", "rel") for b in ("start", "end")) \
             and obs.get("now_us") is None:
         return None                      # the value `now` resolved to could not be observed
+    if "blk" in case:
+        return block_coq_case(case, obs)
     if "wrows" in case:
         if "ok" not in obs or len(obs["ok"]) != len(case["wrows"]):
             return None                  # every row is valid: the oracle reports an error / missing rows
@@ -529,6 +709,26 @@ def oracle(case, obs):
             return (f"number: random_number(min={mn}, max={mx}, step={step}): all draws of the requested width "
                     f"{obs.get('widths', [None])[:1]} give {sorted(got)}, not the whole lattice")
         return None
+    if k == "choice" and "blk" in case:
+        blk = case["blk"]
+        what = (f"{blk['struct']} structure, key {driver_expr(blk)}, " +
+                " / ".join(f"{b['form']} form with {sum(c['lit'] for c in b['cols'])} literal and "
+                           f"{sum(not c['lit'] for c in b['cols'])} formula weights" for b in blk["blocks"]))
+        if vals is None:
+            return f"choice: random_choice block ({what}; every row has a positive total weight) raised {obs['err']}"
+        for n, r in enumerate(obs["rows"]):
+            if r[0] is None:
+                continue                 # the key of this row could not be read back: nothing to say about it
+            for name, b, v in zip("de", blk["blocks"], r[1:]):
+                labs, ws = block_row(b, r[0])
+                x = v[1] if v[0] == "z" else None
+                if x not in labs:
+                    return (f"choice: row {n + 1} (key {r[0]}) field {name} returned {v}, not one of the options {labs} "
+                            f"listed for that row ({what})")
+                if x not in {lab for lab, w in zip(labs, ws) if w > 0}:
+                    return (f"choice: row {n + 1} (key {r[0]}) field {name} returned option L{x} whose weight in that row is 0 "
+                            f"(weights {ws} quarters over {labs}; {what})")
+        return None
     if k == "choice" and "wrows" in case:
         labels = [lab for lab, _, _ in case["items"]]
         if vals is None:
@@ -619,6 +819,8 @@ def nontrivial(case, obs):
         if step < 1:
             return False
         return ((case["max"] - case["min"]) // step >= 1 and "ok" in obs) or case["min"] > case["max"]
+    if k == "choice" and "blk" in case:
+        return "ok" in obs and len(obs.get("rows", [])) >= 2
     if k == "choice":
         ws = choice_weights(case)
         if "ok" in obs:
@@ -654,6 +856,34 @@ def stats(cases, obss):
             if c["min"] < 0:
                 feats["number:negative-min"] += 1
             span["<0" if w < 0 else "0" if w == 0 else "1-9" if w < 10 else "10-999" if w < 1000 else ">=1000"] += 1
+        elif k == "choice" and "blk" in c:
+            blk = c["blk"]
+            feats["block"] += 1
+            feats[f"block:structure:{blk['struct']}"] += 1
+            feats[f"block:key:{blk['driver']}"] += 1
+            feats["block:renderings:" + ("2-3" if len(o.get("rows", [])) <= 3 else "4-6" if len(o.get("rows", [])) <= 6 else "7+")] += 1
+            if len(blk["blocks"]) > 1:
+                feats["block:two-blocks-in-one-object"] += 1
+            if blk.get("legacy"):
+                feats["block:legacy-mode"] += 1
+            for b in blk["blocks"][:1]:
+                nl, nf = sum(cc["lit"] for cc in b["cols"]), sum(not cc["lit"] for cc in b["cols"])
+                feats[f"block:{b['form']}:" + ("mixed-literal-and-formula" if nl and nf else "all-formula" if nf else "all-literal")] += 1
+                for cc in b["cols"]:
+                    if not cc["lit"]:
+                        feats[f"block:formula-syntax:{cc['syntax']}"] += 1
+                    if cc.get("pickf"):
+                        feats["block:pick-is-a-formula"] += 1
+                if b.get("wrap"):
+                    feats["block:nested-in-if"] += 1
+                cols = list(zip(*[[t[0] for t in row] for _, row in b["tab"]]))
+                if any(0 in col and any(w > 0 for w in col) for col in cols):
+                    feats["block:weight-reaches-0-in-some-rows"] += 1
+                if any(400 in col and 0 in col for col in cols):
+                    feats["block:weight-moves-between-0-and-100"] += 1
+                seen = {r[0] for r in o.get("rows", []) if r[0] is not None}
+                if len({tuple(block_row(b, kk)[1]) for kk in seen}) >= 2:
+                    feats["block:weights-differ-between-observed-rows"] += 1
         elif k == "choice":
             ws = choice_weights(c)
             feats[f"choice:{c['form']}"] += 1
@@ -858,6 +1088,113 @@ def gen_choice(rng, tier):
     return out
 
 
+LIT_STYLES = ["num", "num", "flt", "pct", "pct", "str", "sp", "plus", "zeros", "pp"]
+
+
+def gen_block_case(rng, i):
+    """one random_choice block (or two in one object) rendered for many rows; see block_recipe"""
+    struct = rng.choice(["count", "count", "iter", "friends"])
+    legacy = i % 4 == 3
+    if struct == "friends":
+        driver = rng.choice(["parent", "parent", "parent_only", "id", "child_index", "field", "cimod"])
+        parents, count = rng.choice([(2, 2), (3, 2), (2, 3), (4, 1), (3, 3)])
+        nrows = parents * count
+    else:
+        driver = rng.choice(["id", "child_index", "idmod", "cimod", "field", "this_field", "counter", "var"])
+        parents = 0
+        if struct == "iter":
+            count = rng.choice([1, 2, 3])
+            nrows = count * rng.choice([2, 3, 4])
+        else:
+            count = nrows = rng.choice([2, 3, 4, 6, 8])
+    blk = {"struct": struct, "driver": driver, "count": count, "parents": parents, "legacy": legacy}
+    if struct == "iter":
+        blk["target"] = nrows - rng.choice([0, 0, count - 1])
+    # the keys the rows will have (only used to lay out the table; the observed key decides)
+    if driver in ("id", "field", "this_field"):
+        keys = list(range(1, nrows + 1))
+    elif driver == "child_index":
+        keys = list(range(count))
+    elif driver in ("idmod", "cimod"):
+        blk["mod"] = rng.choice([2, 2, 3])
+        keys = list(range(blk["mod"]))
+    elif driver == "counter":
+        blk["start"], blk["step"] = rng.choice([1, 5, 0]), rng.choice([1, 2, 3])
+        keys = [blk["start"] + blk["step"] * n for n in range(nrows)]
+    elif driver == "var":
+        blk["base"] = rng.choice([0, 3, 10])
+        keys = [blk["base"] + n for n in range(count)]
+    elif driver == "parent":
+        keys = [10 * (p + 1) + c for p in range(parents) for c in range(count)]
+    else:
+        keys = [10 * (p + 1) for p in range(parents)]
+    keys = keys[:8]
+    ncols = rng.choice([2, 2, 3, 3, 4])
+    mix = rng.choice(["mixed", "mixed", "mixed", "formula", "literal"])
+    lit = [rng.random() < 0.45 for _ in range(ncols)]
+    if mix == "mixed":
+        if all(lit):
+            lit[rng.randrange(ncols)] = False
+        if not any(lit):
+            lit[rng.randrange(ncols)] = True
+    elif mix == "formula":
+        lit = [False] * ncols
+    else:
+        lit = [True] * ncols
+    fcols = [j for j in range(ncols) if not lit[j]]
+    # weights (quarters): literal columns are the same in every row
+    litw = [rng.choice([0, 0, 0, 4, 40, 200, 400, 1, rng.randint(1, 400)]) if lit[j] else None for j in range(ncols)]
+    if not fcols and sum(w for w in litw) == 0:
+        litw[rng.randrange(ncols)] = 400
+    shape = rng.choice(["rotate", "rotate", "hundred", "random"])
+    if shape != "random" and fcols and rng.random() < 0.6:
+        litw = [0 if lit[j] else None for j in range(ncols)]       # the formulas carry all the weight
+    rows = []
+    for n, key in enumerate(keys):
+        ws = list(litw)
+        if shape == "rotate":                                      # one formula option has all the formulas' weight
+            for j in fcols:
+                ws[j] = 0
+            if fcols:
+                ws[fcols[(n + i) % len(fcols)]] = rng.choice([400, 400, 4, 50, 1, rng.randint(1, 400)])
+        elif shape == "hundred":                                   # formulas moving between 0 and 100
+            for j in fcols:
+                ws[j] = rng.choice([0, 400])
+        else:
+            for j in fcols:
+                ws[j] = rng.choice([0, 0, 4, 8, 40, 200, 400, 1, 3, rng.randint(0, 400)])
+        if sum(ws) == 0:
+            ws[(fcols or list(range(ncols)))[n % len(fcols or range(ncols))]] = 400
+        rows.append(ws)
+    syntaxes = ["jinja", "block", "legacy"] if legacy else ["jinja", "block"]
+    form = rng.choice(["choices", "choices", "dict"])
+    labels = rng.sample(range(1, 40), ncols)
+    numeric_key = driver not in ()     # every driver gives integer keys
+    cols = [{"lab": labels[j], "lit": lit[j], "syntax": rng.choice(syntaxes),
+             "pickf": bool(form == "choices" and numeric_key and rng.random() < 0.25)} for j in range(ncols)]
+    styles = [rng.choice(LIT_STYLES) for _ in range(ncols)]
+    tab = [[key, [tok(w, styles[j] if lit[j] or rng.random() < 0.7 else rng.choice(LIT_STYLES)) for j, w in enumerate(ws)]]
+           for key, ws in zip(keys, rows)]
+    block = {"form": form, "cols": cols, "tab": tab, "wrap": rng.choice([None, None, None, "if"])}
+    blk["blocks"] = [block]
+    if rng.random() < 0.25:                                        # a second block in the same object: same options, the
+        tab2 = [[key, tab[(n + 1) % len(tab)][1]] for n, (key, _) in enumerate(tab)]     # weights of the next key
+        blk["blocks"].append(dict(block, tab=tab2, wrap=None))
+    return {"kind": "choice", "blk": blk}
+
+
+def gen_blocks(rng, tier):
+    out = []
+    for i in range(70 if tier == "quick" else 1500):
+        base = gen_block_case(rng, i)
+        total = 64
+        out.append(dict(base, draws={"mode": "raw", "rows": total,
+                                     "raw": [rng.choice([0, 0, DEN - 1, DEN - 1, rng.randint(0, DEN - 1)]) for _ in range(total)]}))
+        if i % 3 == 0:
+            out.append(dict(base, draws={"mode": "free", "rows": total, "seed": rng.randint(0, 10 ** 6)}))
+    return out
+
+
 DAY_POOL = [(2024, 2, 29), (2000, 2, 29), (1900, 2, 28), (1900, 3, 1), (2023, 2, 28), (2023, 3, 1), (2023, 12, 31), (2024, 1, 1),
             (1969, 12, 30), (1969, 12, 31), (1970, 1, 1), (1970, 1, 2), (1999, 12, 31), (2038, 1, 19), (2100, 2, 28), (1960, 6, 15)]
 
@@ -1027,10 +1364,21 @@ def gen_datetime(rng, tier):
 
 
 def generate(rng, tier):
-    return gen_number(rng, tier) + gen_choice(rng, tier) + gen_date(rng, tier) + gen_datetime(rng, tier)
+    return gen_number(rng, tier) + gen_choice(rng, tier) + gen_blocks(rng, tier) + gen_date(rng, tier) + gen_datetime(rng, tier)
 
 
 def shrink(case):
+    if "blk" in case:
+        blk = case["blk"]
+        if len(blk["blocks"]) > 1:
+            yield dict(case, blk=dict(blk, blocks=blk["blocks"][:1]))
+        if blk["blocks"][0].get("wrap"):
+            yield dict(case, blk=dict(blk, blocks=[dict(blk["blocks"][0], wrap=None)] + blk["blocks"][1:]))
+        if any(c.get("pickf") for c in blk["blocks"][0]["cols"]):
+            yield dict(case, blk=dict(blk, blocks=[dict(b, cols=[dict(c, pickf=False) for c in b["cols"]]) for b in blk["blocks"]]))
+        if blk["struct"] == "count" and blk["count"] > 2:
+            yield dict(case, blk=dict(blk, count=blk["count"] - 1))
+        return
     dr = case["draws"]
     if dr["rows"] > 1 and dr["mode"] in ("raw", "free") and "wrows" not in case:
         yield dict(case, draws=dict(dr, rows=1))
@@ -1060,5 +1408,5 @@ def directed_search(rng, disagreeing):
                     st = step or 1
                     out.append({"kind": "number", "min": mn, "max": mn + span, "step": step, "style": "block",
                                 "draws": draws(rng, "all", rows=span // st + 1)})
-    out += gen_choice(rng, "quick") + gen_date(rng, "quick") + gen_datetime(rng, "quick")
+    out += gen_choice(rng, "quick") + gen_blocks(rng, "quick") + gen_date(rng, "quick") + gen_datetime(rng, "quick")
     return out
